@@ -73,6 +73,18 @@ claim("C14", "model_checking",
       "stream (parser on the file's text, str.split for lines).",
       "TLA+ Engine spec: TLC on the dispatch guards + batched trace validation of recorded callback logs")
 
+claim("C09", "model_checking",
+      "spec/FixSched.tla models the level loop; TLC proves for every instance with 4 rules / 3 levels (every initial trigger set, "
+      "every Dirties relation, every outcome of a pass) that one run converges, terminates and raises levels monotonically when fixes "
+      "only dirty strictly higher levels, and produces the non-converging schedule for a same-level edge (negative configuration, "
+      "required to fail). The schedule of every real fix run (level_begin / level_end probe events) is validated against "
+      "Trace_FixSched with the rules' levels as unlogged variables bound on first sight. End to end: documents of test/resources/rules "
+      "plus families with cooperating fixes x {default set, each fix-capable default rule alone, pairs}: fix(fix(d)) = fix(d), second "
+      "run announces nothing, scan(fix(d)) reports no enabled fix-capable rule.",
+      "Trusted: TLC; byte comparison of files; parsing of scan output; corpus sampling by VERIF_SEED in the quick tier. Non-converging "
+      "documents of the pinned tree are listed one by one in known_findings.json.",
+      "TLA+ FixSched spec: TLC theorem + schedule trace validation + end-to-end fixed-point oracle")
+
 # ---------------------------------------------------------------------------------------------
 if __name__ == "__main__":
     props = [json.loads(l) for l in open("properties.jsonl")]
